@@ -15,7 +15,8 @@ ASSUMPTIONS = ["source-to-model tie is differential testing; arguments of undocu
 RULE = ("malformed stream (delimiter soups, empty brackets, empty hosts with ports, lone delimiters, long inputs) through "
         "both constructor modes with every accessor observed, and random build()/modifier/join programs; predicate: no "
         "exception other than ValueError/TypeError anywhere in the observation, and str() succeeds on every object "
-        "returned in auto-encoding mode; distinct = distinct program")
+        "returned in auto-encoding mode; the public cache entry points (cache_configure with every kind of documented size, then "
+        "use, cache_info, cache_clear, cache_configure()) on the implementation only; distinct = distinct program")
 
 
 
@@ -42,6 +43,15 @@ def run(ctx):
     suites.apply_pred(ctx, "C19-huge-impl-only", "c19_pred", houts,
                       lambda k, i: enc(suites.is_autoenc(hprogs[i])) + " " + houts[k][i],
                       lambda k, i: {"program": repr(hprogs[i])[:300], "impl": houts[k][i][:1000]})
+
+    # the public cache entry points, after cache_configure() with every documented kind of size
+    sizes = [None, 0, 1, 2, 256, 100000]
+    creqs = [("cache_api_probe", [[a, b, c], t]) for a in sizes for b in sizes for c in sizes
+             for t in (("http://b\u00fccher.example:8080/p\u00e4th?q=1",) if (a, b, c) != (0, 0, 0) else ("http://b\u00fccher.example:8080/p\u00e4th?q=1", "http://[::1]/", "/rel"))]
+    couts = core.check_suite(ctx, "C19-cache-api-impl-only", creqs, kinds=("py", "c"), compare=False)
+    suites.apply_pred(ctx, "C19-cache-api-impl-only", "c19_pred", couts,
+                      lambda k, i: enc(False) + " " + couts[k][i],
+                      lambda k, i: {"operation": "cache_configure sizes then use, cache_info, cache_clear, cache_configure()", "request": creqs[i][1], "impl": couts[k][i][:1000]})
 
     # allocation failure inside the quoters (fault injection through _testcapi.set_nomemory;
     # expected outputs come from the extracted model)
